@@ -119,6 +119,24 @@ def run_shard(shard, acc):
             attempt(acc, t3, {"name": name + ":corrupt", "text": t3})
             acc.count("corruptions")
             acc.case(t3, True)
+        # the same through the SsbScript door of compile(): marker line + (corrupted) SsbScript spelling
+        try:
+            c = norm.compile_exps(r.text)
+            st, _ = norm.decompile_ssbs(c.routine_infos, c.routine_ops, c.named_coroutines)
+        except Exception:
+            continue
+        finally:
+            monitors.drain()
+        st = "//?: is-ssb-script: true\n" + st
+        o = attempt(acc, st, {"name": name + ":ssbs", "text": st})
+        acc.count("ssbs_texts")
+        if o != "ok":
+            acc.count("valid_ssbs_rejected")
+        for _ in range(4):
+            t4 = "//?: is-ssb-script: true\n" + invalid.corrupt(st[25:], rnd)
+            attempt(acc, t4, {"name": name + ":ssbs-corrupt", "text": t4})
+            acc.count("ssbs_corruptions")
+            acc.case(t4, True)
 
 
 def run_imports(shard, acc, rnd):
